@@ -346,18 +346,23 @@ func prepareCorrectionOptions(o *CorrectionOptions, opts ...schema.Option) error
 		row(o)
 	}
 
-	// Copy over the stamps from the previous header. The stamp objects are
-	// copied so that nothing done with the options or the new document (raw
-	// JSON options are unmarshalled into o.Stamps below) can reach the
-	// original envelope's header.
-	if o.Head != nil && len(o.Head.Stamps) > 0 {
-		for _, s := range o.Head.Stamps {
-			if s != nil {
-				c := *s
-				s = &c
-			}
-			o.Stamps = append(o.Stamps, s)
+	// Collect the stamps given as options and those of the previous header.
+	// The list and the stamp objects are copied so that nothing done with the
+	// options or the new document (raw JSON options are unmarshalled into
+	// o.Stamps below) can reach the caller's stamps or the original
+	// envelope's header.
+	var stamps []*head.Stamp
+	stamps = append(stamps, o.Stamps...)
+	if o.Head != nil {
+		stamps = append(stamps, o.Head.Stamps...)
+	}
+	o.Stamps = nil
+	for _, s := range stamps {
+		if s != nil {
+			c := *s
+			s = &c
 		}
+		o.Stamps = append(o.Stamps, s)
 	}
 
 	// If we have a raw json object, this will override any of the other options
